@@ -96,7 +96,7 @@ def main():
         meta.setdefault('checks', {})
         if not nocheck:
             t0 = time.time()
-            p = run([os.path.join(VERIF, 'check'), prop, tier], cwd=VERIF, env=dict(os.environ, VT_SUMMARY='0', VERIF_REPO=tmp))
+            p = run([os.path.join(VERIF, 'check'), prop, tier], cwd=VERIF, env=dict(os.environ, VT_SUMMARY='0', VERIF_REPO=tmp, VT_EVIDENCE_DIR=os.path.join(tmp, '.vt-evidence')))
             lines = [l for l in p.stdout.splitlines() if l.startswith('VIOLATION') or l.startswith('  what')]
             summary = p.stdout.strip().splitlines()[-1] if p.stdout.strip() else ''
             meta['checks'][prop] = {'tier': tier, 'first_run_exit': p.returncode, 'first_run_summary': summary,
@@ -105,7 +105,6 @@ def main():
             print(f'check {prop} {tier}: exit {p.returncode} {summary}')
             if lines:
                 print('   ', lines[-1][:400])
-            run(['git', '-C', VERIF, 'checkout', '--', 'evidence'])
         json.dump(meta, open(os.path.join(dst, 'meta.json'), 'w'), indent=1)
         print('KEPT', dst)
         return 0
